@@ -149,3 +149,37 @@ def relayout(src, rng):
     if same_ast(base, new) and new != base:
         return new
     return None
+
+
+def wide(src, rng, pad=65600):
+    """-> a re-layout with an identical AST in which statements joined by `;` sit at columns beyond 2**16 (free whitespace before
+    the `;`): position arithmetic that packs (line, column) into one number, or narrows the column, shows only there"""
+    try:
+        base = normal_form(src)
+    except (SyntaxError, ValueError, RecursionError):
+        return None
+    if has_multiline_token(base) or base.count('\n') > 80:
+        return None
+    lines = []
+    for raw in base.splitlines():
+        if not raw.strip():
+            continue
+        ind = len(raw) - len(raw.lstrip(' '))
+        if ind % 4:
+            return None
+        lines.append(Line(ind // 4, raw.strip()))
+    i = joined = 0
+    while i + 1 < len(lines) and joined < 12:
+        a, b = lines[i], lines[i + 1]
+        if a.simple and b.simple and a.level == b.level and rng.random() < 0.6:
+            a.text = a.text + (' ' * pad if len(a.text) < pad else ' ') + '; ' + b.text
+            del lines[i + 1]
+            joined += 1
+        else:
+            i += 1
+    if not joined:
+        return None
+    new = '\n'.join(' ' * (4 * ln.level) + ln.text for ln in lines) + '\n'
+    if same_ast(base, new):
+        return new
+    return None
